@@ -259,7 +259,7 @@ def r_entry_sibling(ck: Checker) -> None:
     if sorted(ev_) != sorted(ef_):
         only = [t_ for t_ in ef_ if t_ not in ev_] or [t_ for t_ in ev_ if t_ not in ef_]
         who = "NodeMatcher.from_pattern" if [t_ for t_ in ef_ if t_ not in ev_] else "validate_pattern"
-        ck.violation("R-ENTRY-SIBLING", f, f.node, what_e, construct=f"{who} rejects a text when `{only[0][:70]}` without parsing it; the other entry point has no such test "
+        ck.violation("R-ENTRY-SIBLING", f, f.node, what_e, positive=True, construct=f"{who} rejects a text when `{only[0][:70]}` without parsing it; the other entry point has no such test "
                      "(the two disagree, e.g. on text with surrounding whitespace)")
     else:
         ck.holds("R-ENTRY-SIBLING", f, f.node, what_e)
@@ -473,7 +473,7 @@ def r_reusable(ck: Checker, modname: str = XP, cls: str = "ASTXpath", rule: str 
             its = [n.iter] if isinstance(n, (ast.For, ast.comprehension)) else []
             for it in its:
                 if isinstance(it, ast.Attribute) and norm(it.value) == "self" and it.attr in stored:
-                    ck.violation(rule, init, init.node, what, construct=f"{cls}.__init__ stores self.{it.attr} = {norm(stored[it.attr])[:50]} (a one-shot iterator) and "
+                    ck.violation(rule, init, init.node, what, positive=True, construct=f"{cls}.__init__ stores self.{it.attr} = {norm(stored[it.attr])[:50]} (a one-shot iterator) and "
                                  f"{g.qualname} iterates it: the second call on the same compiled object sees nothing")
                     return
     ck.holds(rule, init, init.node, what)
@@ -488,7 +488,7 @@ def r_unquote(ck: Checker) -> None:
               and c.args and isinstance(c.args[0], ast.Constant) and isinstance(c.args[0].value, str) and ("\"" in c.args[0].value or "'" in c.args[0].value)]
     slices = [n for n in ast.walk(f.node) if isinstance(n, ast.Subscript) and isinstance(n.slice, ast.Slice) and norm(n.slice) == "1:-1"]
     if strips and strips[0].func.attr in ("strip", "lstrip", "rstrip"):
-        ck.violation("R-GRAM-EXH", f, strips[0], what, construct=f"value: the literal is unquoted with {norm(strips[0])[:50]}: every quote character at the ends is removed, "
+        ck.violation("R-GRAM-EXH", f, strips[0], what, positive=True, construct=f"value: the literal is unquoted with {norm(strips[0])[:50]}: every quote character at the ends is removed, "
                      "so a regex that ends in an escaped quote loses it and no longer compiles / means something else")
     elif slices:
         ck.holds("R-GRAM-EXH", f, slices[0], what)
@@ -534,7 +534,7 @@ def r_no_memo(ck: Checker) -> None:
                     reads.add(nn.id)
         what = "memoised functions read no mutable registry (their answers cannot go stale)"
         if reads:
-            ck.violation("R-NO-MEMO", f, f.node, what, construct=f"{f.qualname} is memoised ({memo[0]}) but reads the mutable registry {sorted(reads)}")
+            ck.violation("R-NO-MEMO", f, f.node, what, positive=True, construct=f"{f.qualname} is memoised ({memo[0]}) but reads the mutable registry {sorted(reads)}")
         else:
             ck.holds("R-NO-MEMO", f, f.node, what, decorator=memo[0])
     for q in (("pyoak.match.helpers", "check_and_get_ast_node_type"), ("pyoak.legacy.match.helpers", "check_and_get_ast_node_type")):
